@@ -205,6 +205,8 @@ func checkC01(c *Ctx) {
 	ruleP5(c)
 	ruleV2(c)
 	ruleP6(c, pipePkgs)
+	ruleX5b(c)
+	ruleX1b(c)
 }
 
 func checkC02(c *Ctx) {
@@ -218,6 +220,8 @@ func checkC02(c *Ctx) {
 	ruleX1(c, 10)
 	ruleR1(c, allPkgs, 2)
 	ruleT3(c, pipePkgs, 8)
+	ruleX5b(c)
+	ruleX1b(c)
 }
 
 func checkC04(c *Ctx) {
@@ -235,6 +239,7 @@ func checkC04(c *Ctx) {
 	ruleT1(c)
 	// the pipes are closed by wg.Operation().PostHook(close): a WaitGroup.Wait that can miss the last Done
 	// leaves the output open for ever
+	ruleX5b(c)
 	// a worker that sees a context error must stop: the classification table decides that
 	ruleE8(c)
 	wgOwner := map[string]bool{"fun.WaitGroup": true}
@@ -256,6 +261,7 @@ func checkC05(c *Ctx) {
 	ruleD5(c, 2)
 	ruleW9(c, queueOwner, 2)
 	ruleD9v(c, map[string]bool{"pubsub": true}, 3)
+	ruleQueueLinks(c)
 }
 
 func checkC06(c *Ctx) {
@@ -386,6 +392,7 @@ func checkC16(c *Ctx) {
 	ruleD9(c, 20)
 	ruleQ34(c, 3)
 	ruleQ67(c)
+	ruleD3k(c)
 }
 
 func checkC17(c *Ctx) {
@@ -438,6 +445,7 @@ func checkC20(c *Ctx) {
 	lockRules(c, pubsubOwners, map[string]int{"L1": 20, "L2": 8, "L3": 2})
 	ruleL4(c, pubsubOwners, 18)
 	ruleD5(c, 2)
+	ruleQueueLinks(c)
 	condRules(c, pubsubOwners, map[string]int{"W1": 5, "W2": 5, "W2b": 5, "W3": 20, "W4": 20, "W6": 20, "W7": 2})
 }
 
